@@ -254,6 +254,12 @@ def filt_body(case):
     a, b = case['alpha'], case['beta']
     r12 = run(a * f1 + b * f2)
     rc = run(np.full((ntr, nx), case['c']))
+    # an image of counts (integer dtype) gives the same band fluxes as the same numbers held as floats
+    fi = np.round(f1 * 1000).astype('i4')
+    ri, rf = run(fi), run(fi.astype('f8'))
+    with judge('integer-flux'):
+        check(ri.shape == rf.shape and bool(np.all(np.abs(ri - rf) <= 1e-9 * max(1.0, np.abs(rf).max()))), 'filter:integer-flux-image-differs-from-float',
+              lambda: dict(maxdev=float(np.abs(ri - rf).max()), got=ri.tolist()[:2]))
     # which bands are overlapped by each trace (>= 3 pixels inside the response support, away from its ends)
     over = np.zeros((ntr, 5), dtype=bool)
     clear = np.zeros((ntr, 5), dtype=bool)
